@@ -225,6 +225,13 @@ pub fn run(e: &'static Engine) {
         }));
     }
     e.par(jobs);
+    // the generated parts shared by the matrix-level properties: random cells, automatic-mask builds, steered matrices,
+    // data blocks of generated kinds (padding look-alikes, zero / constant / near-copy / generator-multiple blocks),
+    // realistic payloads, extreme textures
+    super::common::standard_parts(e, 16000, 192000, |bc, fam, o| {
+        let corrupt = if bc.hash() % 4 == 0 { Some((bc.hash(), bc.hash() % 8 == 0)) } else { None };
+        check(&Case { build: bc.clone(), fam: "shared", corrupt }, o).map(|_| { let _ = fam; })
+    });
     e.put("cells_total", json!(160 * 8));
     e.set_exhaustive(false, "all 160 (version, level) pairs x 8 masks are enumerated in every run; payloads and corruption patterns are sampled");
 }
